@@ -921,7 +921,8 @@ Section Sync.
   Definition is_sp_op (o : op) : bool :=
     match o with
     | OSet _ w _ => w =? 7
-    | OSpAppend _ _ _ | OSpDelete _ _ | OSpSet _ _ _ | OSpSort _ | OSpSortAbs _ | OSpQuery _ _ | OSpTouch _ => true
+    | OSpAppend _ _ _ | OSpDelete _ _ | OSpSet _ _ _ | OSpSort _ | OSpSortAbs _ | OSpQuery _ _ | OSpTouch _
+    | OSpAdopt _ => true
     | _ => false
     end.
 
@@ -950,7 +951,7 @@ Section Sync.
   Theorem hstep_synced : forall s o, is_sp_op o = true ->
     hstate_synced s -> hstate_synced (fst (hstep idna_raw c s o)).
   Proof.
-    intros s o Ho HS. destruct o as [slot w v| | | |slot n v|slot n|slot n v|slot|slot|slot n|slot];
+    intros s o Ho HS. destruct o as [slot w v| | | |slot n v|slot n|slot n v|slot|slot|slot n|slot|slot];
       cbn [is_sp_op] in Ho; try discriminate; cbn [hstep fst];
       try (apply with_sp_synced; exact HS).
     - apply N.eqb_eq in Ho. subst w. destruct (get s slot) as [u|] eqn:E; [|exact HS].
@@ -967,6 +968,15 @@ Section Sync.
     - destruct (get s slot) as [u|] eqn:E; [|exact HS]. cbn [fst].
       apply put_synced; [exact HS|]. intros u0 H. inversion H; subst u0.
       apply ensure_sp_synced. exact (HS _ _ E).
+    - (* SetSearchParams: the other URL is left as by SearchParams(), the adopting one as by a mutation *)
+      destruct (get s slot) as [u|] eqn:E; [|exact HS].
+      destruct (get s (negb slot)) as [v|] eqn:Ev; [|exact HS].
+      destruct (ensure_sp c v) as [v1 l] eqn:E2. cbn [fst].
+      apply put_synced.
+      + apply put_synced; [exact HS|]. intros u0 H. inversion H; subst u0.
+        replace v1 with (fst (ensure_sp c v)) by (rewrite E2; reflexivity).
+        apply ensure_sp_synced. exact (HS _ _ Ev).
+      + intros u0 H. inversion H; subst u0. apply sp_update_synced.
   Qed.
 End Sync.
 
